@@ -212,6 +212,9 @@ class Pipe:
         self.sent = 0
 
 
+OVER_CAP = 'header block of more frames than the CONTINUATION cap configured for this run'
+
+
 class World:
     def __init__(self, cfg):
         self.cfg = cfg
@@ -373,6 +376,10 @@ class World:
             return
         units = list(e.in_tap.last_units)
         s.units = units
+        cap = self.cfg.get('knobs', {}).get('CONTINUATION_BACKLOG', 64)
+        if s.quirk is None and any(u.block_frames is not None and len(u.block_frames) > cap for u in units):
+            # refused by the DoS cap (C27 judges that); every other oracle abstains as for a dependency quirk
+            s.quirk = OVER_CAP
         if len(units) == 1:
             own = set(id(x) for x in (units[0].block_frames or [units[0]]))
             s.exact = all(id(fr) in own for fr in s.in_frames) and (s.ok or s.trailing < 9)
